@@ -264,8 +264,7 @@ def run_pool_case(case, forced, mode):
     sch = S.Sched(len(programs), forced)
     clock = VClock()
 
-    class _PT:
-        time = staticmethod(clock.time)
+    _PT = clock.module_shim()
     saved = poolmod.time
     poolmod.time = _PT
     removed = {}
